@@ -70,6 +70,12 @@ def act (d : DSt) (a : Act) : Option DSt :=
 
 def acts (d : DSt) (as : List Act) : Option DSt := as.foldlM act d
 
+/-- the end of an auto-destroy: with the re-check a swamp that is not empty any more is closed (flushed) instead -/
+def destroyFin (d : DSt) (t : Nat) : Option DSt :=
+  match act d (.destroyFinish t) with
+  | none => none
+  | some d1 => if d1.s.live && d1.s.stage == 1 then acts d1 [.closeFlush, .closeDone] else some d1
+
 def flag (d0 d : DSt) (cause : String) : DSt × String :=
   if !d.flagged && durableB d0.s && !durableB d.s then ({ d with flagged := true }, s!"\t#F:{cause}") else (d, "")
 
@@ -78,8 +84,10 @@ def writeV (d : DSt) (g : Nat) (k v : String) : DSt × String :=
   let m := memOf d g
   match m.find? (·.key == k) with
   | none =>
-    let d' := if d.recreateDropsMarker && g == d.s.gen then { d with markers := d.markers.filter (· != k) } else d
-    ({ setMem d' g (m ++ [{ key := k, val := v, dirty := true, persisted := false }]) with ackDel := d.ackDel.filter (· != k) }, "NEW")
+    -- the re-created record replaces the queued delete marker; in the repaired form it inherits the marker's file pointer
+    let had := g == d.s.gen && d.markers.contains k
+    let d' := if g == d.s.gen then { d with markers := d.markers.filter (· != k) } else d
+    ({ setMem d' g (m ++ [{ key := k, val := v, dirty := true, persisted := had && !d.recreateDropsMarker }]) with ackDel := d.ackDel.filter (· != k) }, "NEW")
   | some r =>
     if r.dirty || r.val != v then
       (setMem d g (m.map (fun x => if x.key == k then { x with val := v, dirty := true } else x)), "UPDATED")
@@ -126,8 +134,7 @@ def step (d : DSt) (line : String) : DSt × String :=
       match act d2 (.del t (keyNum k)) with
       | none => (d, "ERR")
       | some d3 =>
-        let fin := if (d3.s.th t).pc == 4 then Act.destroyFinish t else Act.cease t
-        match act d3 fin with
+        match (if (d3.s.th t).pc == 4 then destroyFin d3 t else act d3 (.cease t)) with
         | some d4 =>
           let (d5, fl) := flag d d4 "C16-auto-destroy-loses-acked-write"
           ({ d5 with next := t + 1 }, st ++ fl)
@@ -155,7 +162,7 @@ def step (d : DSt) (line : String) : DSt × String :=
           let t : Th := { name := n, id := tid, kind := "del", key := k, val := st, stage := "draining", gen := g }
           -- with nobody else holding a vigil the drain is immediate
           if d3.s.holders.isEmpty then
-            match act d3 (.destroyFinish tid) with
+            match destroyFin d3 tid with
             | some d4 =>
               let (d5, fl) := flag d d4 "C16-auto-destroy-loses-acked-write"
               ({ d5 with ths := d5.ths ++ [{ t with stage := "done" }] }, s!"{n} done {st}" ++ fl)
@@ -184,7 +191,7 @@ def step (d : DSt) (line : String) : DSt × String :=
           (upd d3 "done", s!"{n} done {st}" ++ fl)
         | none => (d, "ERR")
       | "del", "draining" =>
-        match act d (.destroyFinish t.id) with
+        match destroyFin d t.id with
         | some d1 =>
           let (d2, fl) := flag d d1 "C16-auto-destroy-loses-acked-write"
           (upd d2 "done", s!"{n} done {t.val}" ++ fl)
